@@ -24,11 +24,16 @@ func gen(c *hmain.Ctx) {
 	var jobs []*job
 	add := func(stream string, cs hx.Sx) { jobs = append(jobs, &job{stream: stream, cs: cs}) }
 	nextID := 0
+	parents := false
 	mkAdder := func(n int, sleeps bool) hx.Sx {
 		var ops []hx.Sx
 		for i := 0; i < n; i++ {
 			nextID++
-			ops = append(ops, hx.L(hx.I(0), hx.I(nextID), hx.I(r.Range(1, 9)), hx.I(0)))
+			kind := 0
+			if parents && r.Chance(1, 4) {
+				kind = 2 // child-parent event (split): carries the commit, is skipped by Batch.ForEach
+			}
+			ops = append(ops, hx.L(hx.I(0), hx.I(nextID), hx.I(r.Range(1, 9)), hx.I(kind)))
 			if sleeps && r.Chance(1, 4) {
 				ops = append(ops, hx.L(hx.I(1), hx.I(r.Range(1, 30))))
 			}
@@ -73,6 +78,15 @@ func gen(c *hmain.Ctx) {
 				nextID = 0
 				add("exhaustive-one-batch", hx.L(cfgSx(1, 2, 20, retry, dq, 1, 2), hx.L(mkAdder(2, false)), hx.L(hx.L(hx.I(0), hx.I(fails))), hx.L(hx.I(0), hx.I(0))))
 			}
+		}
+	}
+	parents = true
+	// 1b. a failed batch that contains split-parent events, with and without dead queue
+	for _, dq := range []bool{false, true} {
+		for i := 0; i < 10*c.Scale; i++ {
+			nextID = 0
+			retry := r.Range(0, 1)
+			add("failed-batch-with-parents", hx.L(cfgSx(r.Range(1, 2), 3, 20, retry, dq, 1, 2), hx.L(mkAdder(r.Range(3, 9), false)), hx.L(hx.L(hx.I(0), hx.I(retry+2)), hx.L(hx.I(0), hx.I(0)), hx.L(hx.I(0), hx.I(retry+2))), hx.L(hx.I(0), hx.I(0))))
 		}
 	}
 	// 2. random: several batches, workers 1..3, failure plans around the retry count, dead queue on/off
